@@ -223,3 +223,55 @@ def install_all():
 
 def counts():
     return dict(COUNT)
+
+
+def install_scen():
+    """M-scen: at every scenario entry the ledgers and limit counters of that scenario are empty and not shared
+    with another scenario's (object identity)."""
+    if "scen" in _installed:
+        return
+    _installed.add("scen")
+    from scriptplan.core import project as pm
+    real = pm.Project.scheduleScenario   # may already be wrapped by M-pick: wrappers compose
+
+    def scheduleScenario(self, scIdx):
+        COUNT["scen-entry"] += 1
+        nsc = self.scenarioCount()
+        lim_ids = {}
+        for coll, kind in ((self.resources, "r"), (self.tasks, "t")):
+            for node in coll:
+                for k in range(nsc):
+                    try:
+                        lim = node.get("limits", k)
+                    except Exception:
+                        lim = None
+                    if lim:
+                        for one in getattr(lim, "_limits", []):
+                            lim_ids.setdefault(id(one), set()).add((kind, node.fullId, k))
+                        if k == scIdx:
+                            for one in getattr(lim, "_limits", []):
+                                COUNT["scen-limit-checked"] += 1
+                                if any(c != 0 for c in one._scoreboard):
+                                    ONLINE.append(("scen-limit-counter-nonzero", dict(sc=scIdx, node=node.fullId, name=one.name, counters=[c for c in one._scoreboard if c][:5])))
+        for lid, users in lim_ids.items():
+            scs = {u[2] for u in users}
+            if len(scs) > 1:
+                ONLINE.append(("scen-limit-object-shared", dict(users=sorted(users)[:4])))
+        led_ids = {}
+        for r in self.resources:
+            if not r.data:
+                continue
+            for k in range(min(nsc, len(r.data))):
+                rs = r.data[k]
+                if rs is None:
+                    continue
+                led_ids.setdefault(id(rs.slotTaskUsage), set()).add(k)
+                led_ids.setdefault(id(rs.slotSecondsUsed), set()).add(k)
+                if k == scIdx:
+                    COUNT["scen-ledger-checked"] += 1
+                    if rs.slotTaskUsage or rs.slotSecondsUsed:
+                        ONLINE.append(("scen-ledger-not-empty", dict(sc=scIdx, r=r.fullId, n=len(rs.slotTaskUsage))))
+        if any(len(v) > 1 for v in led_ids.values()):
+            ONLINE.append(("scen-ledger-object-shared", dict(sc=scIdx)))
+        return real(self, scIdx)
+    pm.Project.scheduleScenario = scheduleScenario
